@@ -267,8 +267,22 @@ func (w *world) list() []kv {
 
 var knownIDs = []string{"a", "b", "c"}
 
+// a lock-held probe: at schedule position `at`, thread `holder` is parked at `point` (inside a
+// lock) while thread `other` is released into its next step; both steps are then completed and
+// recorded as [holder, other]
+type probe struct {
+	at            int
+	holder, other int
+	point         string
+	blocked       *bool
+}
+
 // runSchedule forces `prefix`, then keeps choosing by `pick` until every thread has ended.
 func runSchedule(sc *scenario, prefix []int, pick func(alive []int) int) *runResult {
+	return runScheduleProbe(sc, prefix, pick, nil)
+}
+
+func runScheduleProbe(sc *scenario, prefix []int, pick func(alive []int) int, pr *probe) *runResult {
 	w := newWorld(sc)
 	r := &runResult{results: make([]fout, len(sc.prog))}
 	threads := make([]*thread, len(sc.prog))
@@ -285,6 +299,18 @@ func runSchedule(sc *scenario, prefix []int, pick func(alive []int) int) *runRes
 		}
 		if len(alive) == 0 {
 			break
+		}
+		if pr != nil && step == pr.at {
+			b, err := ctl.probeLockHeld(threads[pr.holder], pr.point, threads[pr.other])
+			if err != nil {
+				r.err = fmt.Errorf("probe: %v", err)
+				break
+			}
+			*pr.blocked = b
+			r.alive = append(r.alive, alive, alive)
+			r.sched = append(r.sched, pr.holder, pr.other)
+			step++
+			continue
 		}
 		var t int
 		if step < len(prefix) {
@@ -546,6 +572,19 @@ func genC02(o *vcoq.Out, r *vcoq.Rand, tier string) error {
 		sc := &scenario{prog: []*fcall{mkCall(valueTmpls[1], 0, base), mkCall(valueTmpls[2], 1, base)}, tags: []string{"resource:value", "initial:nil"}}
 		exploreAll(sc, 0, emit(sc, "exhaustive-2"))
 	}
+	// a Delete starved by interfering writers: Unavailable exactly after five lost races
+	for _, interferers := range []int{4, 5} {
+		sc := &scenario{cinit: collInit(true), tags: []string{fmt.Sprintf("delete-starved:%d", interferers)}}
+		sc.prog = append(sc.prog, &fcall{kind: kDelete, id: "a", o: &fwo{}, name: "delete-plain"})
+		var prefix []int
+		prefix = append(prefix, 0) // the first read
+		for k := 1; k <= interferers; k++ {
+			sc.prog = append(sc.prog, mkCall(findTmpl(collTmpls, "upsert"), k, base))
+			prefix = append(prefix, k, k, k, 0) // a whole Update, then one more lost recheck
+		}
+		rr := runSchedule(sc, prefix, lowest)
+		emitCase(o, sc, rr, []string{"targeted"})
+	}
 	// three and four threads, sampled schedules
 	n3 := 150
 	if tier == "thorough" {
@@ -628,6 +667,38 @@ func genC03(o *vcoq.Out, r *vcoq.Rand, tier string) error {
 			sc.tags = []string{"writers:" + strings.Join(names, "+"), fmt.Sprintf("read-options:%d", ri), fmt.Sprintf("nwriters:%d", len(ps.writers))}
 			exploreAll(sc, 0, func(rr *runResult) { emitCase(o, sc, rr, []string{"exhaustive"}) })
 		}
+	}
+	// lock-held probes: a seeded subscribe holds the read lock from snapshot to Listen, and a Delete
+	// holds the write lock from the removal to the end of its publication; a writer released into
+	// its save step meanwhile must be kept out
+	type probeSpec struct {
+		name   string
+		sc     *scenario
+		prefix []int
+		pr     probe
+	}
+	plain := roVariants[0]
+	probes := []probeSpec{
+		{"subscribe-value", &scenario{vinit: &vinit0, prog: []*fcall{mkCall(vt("set-delta"), 0, base), subCall(true, plain)}},
+			[]int{0}, probe{at: 1, holder: 1, other: 0, point: "bus.listen.register"}},
+		{"subscribe-collection", &scenario{cinit: collInit(true), prog: []*fcall{mkCall(ct("upsert"), 0, base), subCall(false, plain)}},
+			[]int{0}, probe{at: 1, holder: 1, other: 0, point: "bus.listen.register"}},
+		{"delete-publish", &scenario{cinit: collInit(true), prog: []*fcall{mkCall(ct("upsert"), 0, base), mkCall(ct("delete-expected"), 1, base), subCall(false, plain)}},
+			[]int{2, 0, 1}, probe{at: 3, holder: 1, other: 0, point: "bus.send.snapshot"}},
+	}
+	for _, ps := range probes {
+		blocked := false
+		ps.pr.blocked = &blocked
+		ps.sc.tags = []string{"probe:" + ps.name}
+		rr := runScheduleProbe(ps.sc, ps.prefix, lowest, &ps.pr)
+		if rr.err == nil && !blocked {
+			o.Directs = append(o.Directs, vcoq.Direct{
+				What:   "lock not held across " + ps.name + ": a writer's save ran while the other thread was parked at " + ps.pr.point + " (snapshot and Listen, or removal and its publication, are no longer one atomic step)",
+				Class:  "lock-not-held:" + ps.name,
+				Replay: map[string]any{"program": jsProg(ps.sc), "schedule_prefix": ps.prefix, "parked_at": ps.pr.point},
+			})
+		}
+		emitCase(o, ps.sc, rr, []string{"lock-held-probe"})
 	}
 	// sampled: up to three writers and two subscribers
 	n := 60
